@@ -13,6 +13,7 @@ def run(prop, tier, seed):
                                label="MC_C10: every subset of 11 registrations (+ winner variants): ExactlyOne; one vector per (class, direction)")
     if r.violated:
         raise tlc.MachineryError(f"model property violated on the reference spec: {r.violated}")
+    core.assert_families(r.printed, {"C", "AH", "Box", "DateBox"}, "MC_C10", rep)
     agg = core.replay(r.printed)
     rep.count(agg["n"])
     rep.cov["traces_validated_against_impl"] += agg["n"]
